@@ -128,7 +128,7 @@ func ruleU1(c *Ctx, id string) {
 			dispatch = append(dispatch, topInstr(wScopes, sc, call))
 		}
 		for _, call := range P.CallsIn(sc.Fn, funcIs(V.CommitUnstable)) {
-			if c2, isC := call.(*ssa.Call); isC && c2.Call.StaticCallee() == nil && len(P.Callees(call)) > 1 {
+			if c2, isC := call.(*ssa.Call); isC && staticCallee(c2) == nil && len(P.Callees(call)) > 1 {
 				continue // one of several commits chosen as a function value: followed below
 			}
 			nUnstable++
@@ -139,7 +139,7 @@ func ruleU1(c *Ctx, id string) {
 		for _, b := range sc.Fn.Blocks {
 			for _, in := range b.Instrs {
 				call, isC := in.(*ssa.Call)
-				if !isC || call.Call.StaticCallee() != nil || call.Call.IsInvoke() || terminatorThunkCallee(c, call) == nil {
+				if !isC || staticCallee(call) != nil || call.Call.IsInvoke() || terminatorThunkCallee(c, call) == nil {
 					continue
 				}
 				dispatch = append(dispatch, topInstr(wScopes, sc, call))
@@ -410,7 +410,7 @@ func ruleU3(c *Ctx, id string) {
 						if w.Val != nil {
 							for v := range bwdAll(w.Val) {
 								if cl, ok := v.(*ssa.Call); ok {
-									if cal := cl.Call.StaticCallee(); cal != nil && funcPkg(cal) != nil {
+									if cal := staticCallee(cl); cal != nil && funcPkg(cal) != nil {
 										pp := funcPkg(cal).Path()
 										// sources fine enough to differ between two instances started in quick succession
 										if pp == "time" && cal.Name() == "UnixNano" {
@@ -473,7 +473,7 @@ func bwdAll(v ssa.Value) map[ssa.Value]bool {
 		}
 		// results of go-nfsd helpers: look into what they return
 		if cl, ok := v.(*ssa.Call); ok {
-			if cal := cl.Call.StaticCallee(); cal != nil && IsRepoFunc(cal) && d < 12 {
+			if cal := staticCallee(cl); cal != nil && IsRepoFunc(cal) && d < 12 {
 				for _, b := range cal.Blocks {
 					if r, ok := b.Instrs[len(b.Instrs)-1].(*ssa.Return); ok {
 						for _, res := range r.Results {
